@@ -153,5 +153,5 @@ def run(case, ctx):
 
 
 def parts(tier):
-    return [Part("single-faults", run, strategy=lambda ctx: programs(), budget={"quick": 160, "thorough": 1500},
+    return [Part("single-faults", run, strategy=lambda ctx: programs(), budget={"quick": 400, "thorough": 4000},
                  cap_s={"quick": 500, "thorough": 3400})]
